@@ -362,6 +362,31 @@ def check(run, ctx):
                 run.finding(R7, caller.qual.replace("src.linters.", ""), f"walker-per-item:{norm(it)[:50]}", f"{caller.qual} starts the recursive collector {w.name} once per element of `{norm(it)[:60]}`: when those elements nest (a function inside a function, a block inside a block) the inner subtree is scanned once per enclosing element and every call in it is reported several times", f"{caller.module.rel}:{call.lineno}")
     run.require(n_start >= 3, f"R7: only {n_start} start sites of the recursive call collectors found (one per Rust linter confirmed)")
 
+    R9 = run.rule("R9", "a recursive containment search of the Rust linters (is this identifier used anywhere in that subtree?) tests the node it is handed as well as its descendants", floor=1,
+                  decides="a later use that IS the searched node (a bare tail expression `y`, a lone argument) counts as a use: the clone before it is not reported as unnecessary")
+    n_r9 = 0
+    for g in sorted(repo.funcs.values(), key=lambda x: x.qual):
+        if not g.module.name.startswith(("src.linters.clone_abuse", "src.linters.unwrap_abuse", "src.linters.blocking_async")) or g.parent is not None:
+            continue
+        if not (isinstance(g.node.returns, ast.Name) and g.node.returns.id == "bool"):
+            continue
+        params = [a.arg for a in g.node.args.args if a.arg not in ("self", "cls")]
+        rec = [c for c in ast.walk(g.node) if isinstance(c, ast.Call) and call_name(c) == g.name]
+        if not params or not rec:
+            continue
+        root = params[0]
+        descends = any(isinstance(n, ast.Attribute) and isinstance(n.value, ast.Name) and n.value.id == root and n.attr in ("children", "named_children") for n in ast.walk(g.node))
+        if not descends:
+            continue
+        n_r9 += 1
+        own = [n for n in ast.walk(g.node) if isinstance(n, ast.Call) and call_name(n) != g.name and any(isinstance(a, ast.Name) and a.id == root for a in n.args)]
+        own += [n for n in ast.walk(g.node) if isinstance(n, ast.Compare) and isinstance(n.left, ast.Attribute) and isinstance(n.left.value, ast.Name) and n.left.value.id == root and n.left.attr in ("type", "text", "kind")]
+        if own:
+            run.ok(R9, g.name, f"tests its own node (`{norm(own[0])[:40]}`) and recurses into the children")
+        else:
+            run.finding(R9, g.qual.replace("src.linters.", "", 1), "root-not-tested", f"{g.qual} applies its test to the children of `{root}` only, never to `{root}` itself: when the subtree handed in is the identifier (a block whose tail expression is the bare variable), the use is missed - and a clone that is needed is reported as unnecessary", g.loc)
+    run.require(n_r9 >= 1, "R9: no recursive containment search found (positive control: clone_abuse.rust_analyzer._node_contains_identifier)")
+
     R5 = run.rule("R5", "node-kind literals in the Rust analyzers (shared and per linter) are named kinds / fields of the linked grammar", floor=40)
     g = ctx.grammar
     mods = [m for m in repo.modules.values() if kinds.module_language(m.name) == "rust" and not m.name.startswith("src.linters.nesting")]
